@@ -257,6 +257,8 @@ class GenSinkPart:
                         first = False
                     else:
                         a = f"GFire {cf.z(case['sizes'][ns])} {ad}"
+                elif e[0] == "step" and e[1][0] == "Process":
+                    continue            # the generator's own termination event (finish reached): no model action
                 else:
                     return f"false (* unexpected log entry {e[:2]} *)"
                 na, ns = sample[1], sample[2]
